@@ -530,6 +530,8 @@ simcam_get_frame(struct Camera* camera,
     }
     self->im.last_emitted_frame_id = self->im.frame_id;
     if (!self->streamer.is_running) {
+        // stopped while waiting: there is no frame, say so
+        *nbytes = 0;
         goto Shutdown;
     }
 
